@@ -109,7 +109,18 @@ CORPUS["raw-start-task-wait"] = dict(
     definition=machine("A", A=T("f1", Next="W"), W={"Type": "Wait", "Seconds": 2, "Next": "B"}, B=T("f2", End=True)),
     input={"x": 3}, script={"f1": [{"ok": OK, "delay": 1.0}], "f2": [{"ok": {"op": "tag"}, "delay": 1.0}]}, via="raw")
 
-QUICK = ["raw-start-task-wait", "pass-task-pass", "two-tasks-and-wait", "choice-and-succeed", "task-retry-then-success", "task-catch",
+# a fire-and-forget child launch between two Tasks: the launching event must survive a restart like any other
+CORPUS["async-child-launch"] = dict(
+    definition=machine("A", A=T("f1", Next="L"),
+                       L={"Type": "Task", "Resource": "arn:aws:states:local::states:startExecution",
+                          "Parameters": {"StateMachineArn": "arn:aws:states:local:0123456789:stateMachine:kid", "Input": {"v.$": "$.x"}},
+                          "ResultPath": "$.launched", "OutputPath": "$.x", "Next": "B"},
+                       B=T("f2", End=True)),
+    input={"x": 5}, script={"f1": [{"ok": {"op": "echo"}, "delay": 1.0}], "f2": [{"ok": {"op": "tag"}, "delay": 1.0}],
+                            "kidwork": [{"ok": {"op": "tag"}, "delay": 2.0}]},
+    machines={"kid": {"definition": machine("K", K=T("kidwork", End=True)), "type": "STANDARD"}})
+
+QUICK = ["raw-start-task-wait", "async-child-launch", "pass-task-pass", "two-tasks-and-wait", "choice-and-succeed", "task-retry-then-success", "task-catch",
          "task-timeout-caught", "fail-state", "parallel-two-tasks", "parallel-end-with-wait", "map-tasks",
          "map-maxconcurrency", "map-batches-task-then-pass", "parallel-branch-fails", "map-batches-iterator-ends-in-parallel",
          "parallel-branch-ends-in-map", "parallel-in-parallel-then-task"]
@@ -119,7 +130,10 @@ def scenario(name, cfg=None, type_="STANDARD"):
     c = CORPUS[name]
     conf = {"policy": "canonical", "latency": "zero", "execution_ttl": 120}
     conf.update(cfg or {})
-    return {"machines": {"m": {"definition": c["definition"], "type": type_, "family": "corpus:" + name}},
+    machines = {"m": {"definition": c["definition"], "type": type_, "family": "corpus:" + name}}
+    for k, v in (c.get("machines") or {}).items():
+        machines[k] = dict(v)
+    return {"machines": machines,
             "executions": [dict({"machine": "m", "input": c["input"], "name": "e1"}, **({"via": c["via"]} if c.get("via") else {}))],
             "script": c["script"], "functions": sorted(c["script"]), "config": conf}
 
